@@ -6,6 +6,7 @@ import Starcal.Drv.ByNameDrv
 import Starcal.Drv.RulesDrv
 import Starcal.Drv.SetDrv
 import Starcal.Drv.LockDrv
+import Starcal.Drv.ZoneDrv
 /-! Line-protocol driver: runs the executable definitions of the model (the very
     definitions the theorems are about) on requests read from stdin, one response
     line per request. See DESIGN.md section 10b. -/
@@ -24,16 +25,24 @@ def dispatch (toks : List String) : String :=
   | "locks" :: rest => locksRequest rest
   | _ => "bad-request"
 
-partial def loop (inp : IO.FS.Stream) (out : IO.FS.Stream) : IO Unit := do
+partial def loop (inp : IO.FS.Stream) (out : IO.FS.Stream) (zone : IO.Ref Starcal.ZoneModel.TZ) : IO Unit := do
   let line ← inp.getLine
   if line.isEmpty then return ()
   let l := String.ofList (line.toList.reverse.dropWhile (fun c => c == '\n' || c == '\r')).reverse
-  let resp := dispatch (l.splitOn " ")
+  let toks := l.splitOn " "
+  let resp ← match toks with
+    | ["zone", "set", _name, o0, tr] =>
+      match o0.toInt?, parseTrans tr with
+      | some o, some t => do zone.set ⟨o, t⟩; pure "ok"
+      | _, _ => pure "bad-request"
+    | "zone" :: rest => do pure (zoneRequest (← zone.get) rest)
+    | _ => pure (dispatch toks)
   out.putStrLn resp
-  loop inp out
+  loop inp out zone
 
 def main : IO Unit := do
   let inp ← IO.getStdin
   let out ← IO.getStdout
-  loop inp out
+  let zone ← IO.mkRef (⟨0, []⟩ : Starcal.ZoneModel.TZ)
+  loop inp out zone
   out.flush
